@@ -53,6 +53,7 @@ var (
 	nTrace  = flag.Int("ntrace", 2, "value-level traces per engine and kind")
 	lenTr   = flag.Int("tracelen", 40, "ops per trace")
 	memType = flag.String("memtype", "", "index of the mem engine: radix (shipped default), btree, skiplist")
+	junk    = flag.Int("junk", 0, "add an interleaving case on rocksdb with this many extra files in the data directory (K1R demonstration)")
 	exh     = flag.Bool("exh", false, "add the exhaustive small-scope purge/latest cases")
 	nInter  = flag.Int("ninter", 40, "trials of the apply-loop interleaving per engine (case kind I)")
 	nFetch  = flag.Int("nfetch", 1, "fetch-after-lineage-reset scenarios per engine")
@@ -343,6 +344,9 @@ func generate(r *hx.Rng) []cs {
 			cases = append(cases, cs{id: next(), kind: "I", f: []string{e, fmt.Sprint(*nInter), fmt.Sprint(r.Int63n(1 << 40))}})
 		}
 	}
+	if *junk > 0 {
+		cases = append(cases, cs{id: next(), kind: "I", f: []string{"rocksdb", "2", fmt.Sprint(r.Int63n(1 << 40)), fmt.Sprint(*junk)}})
+	}
 	for _, e := range strings.Split(*k1engs, ",") {
 		if e != "" && e != "none" {
 			cases = append(cases, cs{id: next(), kind: "K", f: []string{e, fmt.Sprint(*k1mb), "300"}})
@@ -427,6 +431,8 @@ func main() {
 	co := hx.Create(*outDir + "/cases.tsv")
 	io := hx.Create(*outDir + "/impl.out")
 	sk := hx.Create(*outDir + "/skeleton.tsv")
+	kn := hx.Create(*outDir + "/known.out")
+	defer kn.Close()
 	defer co.Close()
 	defer io.Close()
 	defer sk.Close()
@@ -479,10 +485,19 @@ func main() {
 		case "I":
 			n, _ := strconv.Atoi(c.f[1])
 			sd, _ := strconv.ParseInt(c.f[2], 10, 64)
-			tr, bad, first, err := interleave(c.f[0], n, sd)
-			co.Printf("%s\tI\t%s\t%s\t%s\n", c.id, c.f[0], c.f[1], c.f[2])
+			jf := 0
+			if len(c.f) > 3 {
+				jf, _ = strconv.Atoi(c.f[3])
+			}
+			tr, bad, first, err := interleave(c.f[0], n, sd, jf)
+			co.Printf("%s\tI\t%s\t%s\t%s\t%d\n", c.id, c.f[0], c.f[1], c.f[2], jf)
 			if err != nil {
 				io.Printf("%s\terr after %d trials: %v\n", c.id, tr, err)
+			} else if jf > 0 {
+				// the outcome depends on how long the engine needs to list that directory: reported
+				// on the side (known.out), not part of the model comparison
+				io.Printf("%s\ttrials=%d later_writes_visible=*\n", c.id, tr)
+				kn.Printf("%s\t%s\t%d\t%d\t%d\n", c.id, c.f[0], jf, tr, bad)
 			} else {
 				io.Printf("%s\ttrials=%d later_writes_visible=%d\n", c.id, tr, bad)
 				if bad > 0 {
